@@ -1545,7 +1545,7 @@ fn configs(cli: &Cli, prop: &str) -> Vec<RunCfg> {
     let mk = |layout: &[usize], ordered: bool, limit: u64, depth: usize, profile: Profile, sizes: Vec<usize>, init: Vec<Op>, stale: bool, max_states: usize| {
         let l = if ordered { Layout::new(&vec![1; layout.iter().sum()]) } else { Layout::new(layout) };
         RunCfg {
-            label: format!("{:?}/layout {}/ordered {}/limit {}/depth {}", profile, l.name(), ordered, limit, depth),
+            label: format!("{:?}/layout {}/ordered {}/limit {}/init {}/depth {}", profile, l.name(), ordered, limit, init.iter().map(op_kind).collect::<Vec<_>>().join("+"), depth),
             layout: l,
             broker: bc(ordered, limit),
             profile,
@@ -1573,19 +1573,31 @@ fn configs(cli: &Cli, prop: &str) -> Vec<RunCfg> {
         }
         return v;
     }
+    let c1 = || "c1".to_string();
+    let mid_out = || vec![Op::AddCluster { name: c1(), n: 4 }, Op::AutoAddNodes { name: c1(), n: 4 }, Op::MigrateSlots { name: c1() }];
+    let mid_in = || vec![Op::AddCluster { name: c1(), n: 8 }, Op::ScaleDown { name: c1(), n: 4 }];
+    let created = || vec![Op::AddCluster { name: c1(), n: 4 }];
     if thorough {
-        for (layout, depth) in [(&[2usize, 2][..], 8usize), (&[2, 2, 2][..], 7), (&[1, 1, 1, 1][..], 8), (&[3, 2, 1][..], 7), (&[2, 2, 2, 2][..], 6)] {
+        for (layout, depth) in [(&[2usize, 2][..], 8usize), (&[2, 2, 2][..], 6), (&[1, 1, 1, 1][..], 8), (&[3, 2, 1][..], 6), (&[2, 2, 2, 2][..], 5)] {
             for lim in [0u64, 1, 2] {
-                v.push(mk(layout, false, lim, depth, Profile::General, vec![4, 8], vec![], lim == 1, 600_000));
+                v.push(mk(layout, false, lim, depth, Profile::General, vec![4, 8], vec![], lim == 1, 400_000));
             }
         }
-        v.push(mk(&[1; 6], true, 1, 7, Profile::General, vec![4, 8], vec![], true, 600_000));
-        v.push(mk(&[1; 4], true, 0, 8, Profile::General, vec![4, 8], vec![], false, 600_000));
+        for lim in [0u64, 1, 2] {
+            v.push(mk(&[2, 2, 2], false, lim, 7, Profile::General, vec![4, 8], mid_out(), true, 400_000));
+            v.push(mk(&[2, 2, 2], false, lim, 7, Profile::General, vec![4, 8], mid_in(), true, 400_000));
+            v.push(mk(&[3, 3, 2], false, lim, 6, Profile::General, vec![4, 8, 12], mid_out(), true, 400_000));
+            v.push(mk(&[2, 2, 2, 2], false, lim, 6, Profile::General, vec![4, 8, 12], created(), true, 400_000));
+        }
+        v.push(mk(&[1; 6], true, 1, 7, Profile::General, vec![4, 8], vec![], true, 400_000));
+        v.push(mk(&[1; 6], true, 1, 7, Profile::General, vec![4, 8], mid_out(), true, 400_000));
+        v.push(mk(&[1; 4], true, 0, 8, Profile::General, vec![4, 8], vec![], false, 400_000));
     } else {
-        v.push(mk(&[2, 2], false, 1, 5, Profile::General, vec![4, 8], vec![], true, 60_000));
-        v.push(mk(&[2, 2, 2], false, 1, 4, Profile::General, vec![4, 8], vec![], true, 60_000));
-        v.push(mk(&[2, 2, 2], false, 0, 4, Profile::General, vec![4, 8], vec![], false, 60_000));
-        v.push(mk(&[1; 4], true, 1, 5, Profile::General, vec![4, 8], vec![], false, 60_000));
+        v.push(mk(&[2, 2], false, 1, 4, Profile::General, vec![4, 8], vec![], true, 60_000));
+        v.push(mk(&[2, 2, 2], false, 1, 4, Profile::General, vec![4, 8], mid_out(), true, 60_000));
+        v.push(mk(&[2, 2, 2], false, 0, 4, Profile::General, vec![4, 8], mid_in(), false, 60_000));
+        v.push(mk(&[2, 2, 2], false, 2, 3, Profile::General, vec![4, 8], created(), false, 60_000));
+        v.push(mk(&[1; 6], true, 1, 4, Profile::General, vec![4, 8], mid_out(), false, 60_000));
     }
     v
 }
